@@ -806,5 +806,245 @@ Proof.
     + subst chain. destruct (LocB_head _ _ _ _ _ _ HL') as (r' & Hr'). discriminate Hr'.
 Qed.
 
+
+(* a generated cell lies inside its container *)
+Lemma GenOK_inside : forall s key k ch, extends s0 s -> GenOK s key k ch ->
+  forall p, Den s p (TRef k) true -> Den s p (TRef key) true.
+Proof.
+  intros s key k ch Hx (ncl & lcl & kcl & r & H1 & H2 & H3 & H4 & H5 & H6 & H7 & H8 & H9 & H10 & H11 & H12 & H13) p HD.
+  destruct H12 as [[_ ->]|(_ & lft & rgt & Hg & Hl)]; [exact HD|].
+  destruct (Den_ref_inv _ _ _ _ HD) as (ncl' & Hn & HDg). rewrite H2 in Hn. inversion Hn; subst ncl'.
+  rewrite Hg in HDg. destruct (Den_node_inv _ _ _ _ _ HDg) as (bs & HDL & Hb).
+  destruct (DenL_cons_inv _ _ _ _ _ HDL) as (b1 & bs1 & -> & HD1 & _).
+  cbn in Hb. symmetry in Hb. apply andb_true_iff in Hb. destruct Hb as [-> _].
+  destruct Hl as [->| ->]; [exact HD1|].
+  eapply DRef; [apply (proj1 Hx); exact H4 | exact HD1].
+Qed.
+
+Notation fill_each := (fill_each T surf tr_empty teqb tr_surf).
+
+(* the loop over the level-0 cells that have a FILL *)
+Lemma fill_each_spec : forall fuel keys s rs s',
+  extends s0 s -> Inv s -> (forall k, In k keys -> exists cl, dget k (s_cells s0) = Some cl) ->
+  fill_each fuel cf du ifd ifg keys s = Ok (rs, s') ->
+  Inv s' /\ extends s s' /\
+  Forall2 (fun key ks => exists chs, Paths s0 du key chs /\ Forall2 (GenOK s' key) ks chs) keys rs.
+Proof.
+  intros fuel keys s rs s' Hx0 HI Hkeys H. unfold Model.fill_each in H.
+  set (R := fun (s : state) (key : Z) (ks : list Z) =>
+              exists chs, Paths s0 du key chs /\ Forall2 (GenOK s key) ks chs).
+  assert (Rmono : forall s s' a b, extends s s' -> R s a b -> R s' a b).
+  { intros sa sb a b Hx (chs & HP & HF). exists chs. split; [exact HP|].
+    eapply Forall2_imp; [|exact HF]. intros e ch HG. eapply GenOK_mono; eauto. }
+  assert (Hstep : forall c, In c keys -> forall sa b sb,
+             (extends s0 sa /\ Inv sa) -> pot_fill fuel cf du ifd ifg c sa = Ok (b, sb) ->
+             (extends s0 sb /\ Inv sb) /\ extends sa sb /\ R sb c b).
+  { intros c Hin sa b sb [Hxa HIa] E.
+    destruct (pot_fill_spec fuel c sa b sb Hxa HIa (Hkeys c Hin) E) as (A & B & C).
+    split; [split; [eapply extends_trans; eauto | exact A]|]. split; [exact B | exact C]. }
+  destruct (mapM_st_spec (fun s => extends s0 s /\ Inv s) extends extends_refl extends_trans
+              (pot_fill fuel cf du ifd ifg) R Rmono keys Hstep _ _ _ (conj Hx0 HI) H)
+    as ((_ & HI1) & Hx1 & HR).
+  split; [exact HI1|]. split; [exact Hx1 | exact HR].
+Qed.
+
 End Fill.
+
+(* ---- the enumeration of descents is complete, and a partition makes the located one unique ----- *)
+Lemma PathsL_In : forall s du l chss, PathsL s du l chss ->
+  forall c, In c l -> exists chs, Paths s du c chs /\ In chs chss.
+Proof.
+  intros s du l chss H. induction H as [|c0 cs chs chss HP HPL IH]; intros c Hin; [destruct Hin|].
+  destruct Hin as [<-|Hin].
+  - exists chs. split; [exact HP | left; reflexivity].
+  - destruct (IH c Hin) as (chs' & A & B). exists chs'. split; [exact A | right; exact B].
+Qed.
+
+Lemma Paths_complete : forall s du key p ch b, LocB s du key p ch b ->
+  forall chs, Paths s du key chs -> In ch chs.
+Proof.
+  intros s du key p ch b H. induction H as [key cl p b Hk Hf HD|key cl u p c chain b1 b2 Hk Hf Hc HD HL IH];
+    intros chs HP.
+  - inversion HP as [key' cl' Hk' Hf' Ek Ec|key' cl' u' chss Hk' Hf' HPL Ek Ec]; subst.
+    + left. reflexivity.
+    + rewrite Hk in Hk'. inversion Hk'; subst cl'. rewrite Hf in Hf'. discriminate.
+  - inversion HP as [key' cl' Hk' Hf' Ek Ec|key' cl' u' chss Hk' Hf' HPL Ek Ec]; subst.
+    + rewrite Hk in Hk'. inversion Hk'; subst cl'. rewrite Hf in Hf'. discriminate.
+    + rewrite Hk in Hk'. inversion Hk'; subst cl'. rewrite Hf in Hf'. inversion Hf'; subst u'.
+      destruct (PathsL_In _ _ _ _ HPL c Hc) as (chs_c & HPc & Hin).
+      apply in_map. apply in_concat. exists chs_c. split; [exact Hin | apply IH; exact HPc].
+Qed.
+
+Lemma LocB_first : forall s du key p ch b, LocB s du key p ch b ->
+  exists cl b1, dget key (s_cells s) = Some cl /\ Den s p (c_geom cl) b1 /\ (b1 = false -> b = false).
+Proof.
+  intros s du key p ch b H. destruct H as [key cl p b Hk Hf HD|key cl u p c chain b1 b2 Hk Hf Hc HD HL].
+  - exists cl, b. auto.
+  - exists cl, b1. split; [exact Hk|]. split; [exact HD|]. intros ->. reflexivity.
+Qed.
+
+(* in a deck whose universes are partitions, every descent other than the located one is false *)
+Lemma LocB_unique : forall s du, universe_partition T surf P sense s du ->
+  forall key p ch b, LocB s du key p ch b -> b = true ->
+  forall ch' b', LocB s du key p ch' b' -> ch' <> ch -> b' = false.
+Proof.
+  intros s du Hpart key p ch b H.
+  induction H as [key cl p b Hk Hf HD|key cl u p c chain b1 b2 Hk Hf Hc HD HL IH];
+    intros Hb ch' b' H' Hne.
+  - inversion H' as [key' cl' p' b0 Hk' Hf' HD' Ek Ep Ec Eb
+                    |key' cl' u' p' c' chain' b1' b2' Hk' Hf' Hc' HD' HL' Ek Ep Ec Eb]; subst.
+    + exfalso. apply Hne. reflexivity.
+    + rewrite Hk in Hk'. inversion Hk'; subst cl'. rewrite Hf in Hf'. discriminate.
+  - apply andb_true_iff in Hb. destruct Hb as [-> ->].
+    inversion H' as [key' cl' p' b0 Hk' Hf' HD' Ek Ep Ec Eb
+                    |key' cl' u' p' c' chain' b1' b2' Hk' Hf' Hc' HD' HL' Ek Ep Ec Eb]; subst.
+    + rewrite Hk in Hk'. inversion Hk'; subst cl'. rewrite Hf in Hf'. discriminate.
+    + rewrite Hk in Hk'. inversion Hk'; subst cl'. rewrite Hf in Hf'. inversion Hf'; subst u'.
+      destruct (Z.eq_dec c' c) as [->|Hcc].
+      * rewrite (IH eq_refl chain' b2' HL'); [apply andb_false_r|].
+        intros ->. apply Hne. reflexivity.
+      * destruct (LocB_first _ _ _ _ _ _ HL) as (clc & bc & Hclc & HDc & Hbc).
+        destruct (LocB_first _ _ _ _ _ _ HL') as (clc' & bc' & Hclc' & HDc' & Hbc').
+        assert (bc = true) by (destruct bc; [reflexivity | discriminate (Hbc eq_refl)]). subst bc.
+        assert (HDf : Den s (frame cl p) (c_geom clc') false).
+        { eapply (Hpart u (frame cl p) c c'); eauto. }
+        rewrite (proj1 (Den_fun _ _) _ _ HDc' _ HDf) in Hbc'. rewrite (Hbc' eq_refl).
+        apply andb_false_r.
+Qed.
+
+(* by_universe lists existing cells *)
+Lemma dappend_In : forall (k : Z) (x : Z) d u c, In c (du_get u (dappend k x d)) ->
+  In c (du_get u d) \/ c = x.
+Proof.
+  intros k x d u c. unfold dappend, du_get.
+  destruct (dget k d) as [l|] eqn:E.
+  - destruct (Z.eq_dec u k) as [->|Hne].
+    + rewrite dget_dset_same, E. intros H. apply in_app_or in H. destruct H as [H|[H|[]]]; auto.
+    + rewrite dget_dset_other by exact Hne. auto.
+  - destruct (Z.eq_dec u k) as [->|Hne].
+    + rewrite dget_dset_same, E. intros [H|[]]; auto.
+    + rewrite dget_dset_other by exact Hne. auto.
+Qed.
+
+Lemma by_universe_closed : forall (cells : list (Z * cell)) u c,
+  In c (du_get u (by_universe cells)) -> exists cl, dget c cells = Some cl.
+Proof.
+  intros cells u c. unfold by_universe.
+  assert (G : forall l acc, In c (du_get u (fold_left
+               (fun du0 (kc : Z * cell) => dappend (c_univ (snd kc)) (fst kc) du0) l acc)) ->
+             In c (du_get u acc) \/ In c (map fst l)).
+  { induction l as [|[k cl] r IH]; intros acc H; cbn in *; [left; exact H|].
+    destruct (IH _ H) as [H1|H1]; [|right; right; exact H1].
+    destruct (dappend_In _ _ _ _ _ H1) as [H2| ->]; [left; exact H2 | right; left; reflexivity]. }
+  intros H. destruct (G _ _ H) as [H1|H1]; [destruct H1|].
+  apply in_map_iff in H1. destruct H1 as ([k cl] & <- & Hin). cbn.
+  destruct (dget k cells) as [cl'|] eqn:E; [eauto|].
+  exfalso. exact (In_dget_some _ _ _ Hin E).
+Qed.
+
+
+Lemma fill_keys_closed : forall (cells : list (Z * cell)) k,
+  In k (fill_keys cells) -> exists cl, dget k cells = Some cl.
+Proof.
+  intros cells k H. unfold fill_keys in H. apply in_map_iff in H.
+  destruct H as ([k' cl] & <- & Hin). apply filter_In in Hin. destruct Hin as [Hin _]. cbn.
+  destruct (dget k' cells) as [cl'|] eqn:E; [eauto|]. exfalso. exact (In_dget_some _ _ _ Hin E).
+Qed.
+
+Notation fill_phase := (fill_phase T surf tr_empty teqb tr_surf).
+
+(* the whole "treat FILL" step of construct_volume_t4 *)
+Theorem fill_phase_spec : forall fuel cf ifd ifg s rs s',
+  fresh_ok s -> s_cache s = [] ->
+  (forall c cl, dget c (s_cells s) = Some cl -> c_orig cl = []) ->
+  fill_phase fuel cf ifd ifg s = Ok (rs, s') ->
+  extends s s' /\ cache_coherent s' /\
+  Forall2 (fun key ks => exists chs,
+             Paths s (by_universe (s_cells s)) key chs /\
+             Forall2 (GenOK s (by_universe (s_cells s)) s' key) ks chs)
+          (fill_keys (s_cells s)) rs.
+Proof.
+  intros fuel cf ifd ifg s rs s' Hf Hc Ho H. unfold Model.fill_phase in H.
+  destruct (fill_each_spec s (by_universe (s_cells s)) cf ifd ifg Ho
+              (fun u c Hin => by_universe_closed _ u c Hin)
+              fuel _ s rs s' (extends_refl s) (Inv_init s Hf Hc)
+              (fill_keys_closed (s_cells s)) H) as (HI & Hx & HR).
+  split; [exact Hx|]. split; [apply Inv_cache_coherent; exact HI | exact HR].
+Qed.
+
+
+Notation Represents := (Represents T surf P tr_empty inv sense).
+Notation Verdict := (Verdict T surf P tr_empty inv sense).
+
+Lemma GenOK_Represents : forall s0 du s key k ch, extends s0 s ->
+  GenOK s0 du s key k ch -> Represents s0 du s key k ch.
+Proof.
+  intros s0 du s key k ch Hx HG. pose proof (GenOK_inside _ _ _ _ _ _ Hx HG) as Hin.
+  destruct HG as (ncl & lcl & kcl & r & H1 & H2 & H3 & H4 & H5 & H6 & H7 & H8 & H9 & H10 & H11 & H12 & H13).
+  exists ncl, lcl. repeat (split; [assumption|]). split.
+  - intros p b HL. destruct (Den_ref_inv _ _ _ _ (H13 p b HL)) as (ncl' & Hn & HD).
+    rewrite H2 in Hn. inversion Hn; subst. exact HD.
+  - intros p HD. apply Hin. eapply DRef; eauto.
+Qed.
+
+Lemma GenOK_Verdict : forall s0 du s key p ch k ch',
+  LocB s0 du key p ch true -> GenOK s0 du s key k ch' -> Verdict s0 du s key p ch k ch'.
+Proof.
+  intros s0 du s key p ch k ch' HL HG.
+  destruct HG as (ncl & lcl & kcl & r & H1 & H2 & H3 & H4 & H5 & H6 & H7 & H8 & H9 & H10 & H11 & H12 & H13).
+  split.
+  - intros ->. apply H13. exact HL.
+  - intros Hpart Hne b' HL'.
+    rewrite (LocB_unique s0 du Hpart key p ch true HL eq_refl ch' b' HL' Hne) in HL'.
+    apply H13. exact HL'.
+Qed.
+
+Notation Outcome := (Outcome T surf P tr_empty inv sense).
+
+Lemma GenOK_Outcome : forall s0 du s key ks chs, extends s0 s ->
+  Paths s0 du key chs -> Forall2 (GenOK s0 du s key) ks chs -> Outcome s0 du s key ks.
+Proof.
+  intros s0 du s key ks chs Hx HP HF. exists chs. split; [exact HP|]. split.
+  - eapply Forall2_imp; [|exact HF]. intros k ch HG. apply GenOK_Represents; assumption.
+  - intros p ch HL. split; [eapply Paths_complete; eauto|].
+    eapply Forall2_imp; [|exact HF]. intros k ch' HG. apply GenOK_Verdict; assumption.
+Qed.
+
+(* one call of pot_fill on a table whose cache invariant holds *)
+Theorem pot_fill_located : forall fuel cf du ifd ifg key s ks s',
+  Inv s ->
+  (forall c cl, dget c (s_cells s) = Some cl -> c_orig cl = []) ->
+  (forall u c, In c (du_get u du) -> exists cl, dget c (s_cells s) = Some cl) ->
+  (exists cl, dget key (s_cells s) = Some cl) ->
+  pot_fill fuel cf du ifd ifg key s = Ok (ks, s') ->
+  Inv s' /\ extends s s' /\ Outcome s du s' key ks.
+Proof.
+  intros fuel cf du ifd ifg key s ks s' HI Ho Hdu Hkey H.
+  destruct (pot_fill_spec s du cf ifd ifg Ho Hdu fuel key s ks s' (extends_refl s) HI Hkey H)
+    as (HI' & Hx & chs & HP & HF).
+  split; [exact HI'|]. split; [exact Hx|]. eapply GenOK_Outcome; eauto.
+Qed.
+
+(* the "treat FILL" loop of construct_volume_t4, from a table with fresh counters and empty caches *)
+Theorem fill_phase_located : forall fuel cf ifd ifg s rs s',
+  fresh_ok s -> s_cache s = [] ->
+  (forall c cl, dget c (s_cells s) = Some cl -> c_orig cl = []) ->
+  fill_phase fuel cf ifd ifg s = Ok (rs, s') ->
+  extends s s' /\ cache_coherent s' /\
+  Forall2 (Outcome s (by_universe (s_cells s)) s') (fill_keys (s_cells s)) rs.
+Proof.
+  intros fuel cf ifd ifg s rs s' Hf Hc Ho H.
+  destruct (fill_phase_spec fuel cf ifd ifg s rs s' Hf Hc Ho H) as (Hx & Hcc & HR).
+  split; [exact Hx|]. split; [exact Hcc|].
+  eapply Forall2_imp; [|exact HR]. intros key ks (chs & HP & HF). eapply GenOK_Outcome; eauto.
+Qed.
+
+(* the part of a universe outside its container produces nothing, at every level of a descent *)
+Lemma Located_inside : forall s du key p ch, Located T surf P tr_empty inv sense s du key p ch ->
+  exists cl, dget key (s_cells s) = Some cl /\ Den s p (c_geom cl) true.
+Proof.
+  intros s du key p ch HL. destruct (LocB_first _ _ _ _ _ _ HL) as (cl & b1 & Hk & HD & Hb).
+  exists cl. split; [exact Hk|]. destruct b1; [exact HD | discriminate (Hb eq_refl)].
+Qed.
+
 End Proofs.
